@@ -7,7 +7,7 @@ CONSTANTS
   Hours = {0, 1, 11, 12, 13, 23, 24}
   MinSecs = {0, 1, 30, 59}
   Weeks = {1, 9, 10, 52, 53}
-  Amounts = {"1", "2", "10", "100", "5000", "0.5", "1.5", "01", ".5", "1.50", "0.25", "12.75"}
+  Amounts = {"1", "2", "10", "100", "5000", "0.5", "1.5", "01", ".5", "1.50", "0.25", "12.75", "10.0", "30.00", "100.0", "20.50"}
 INVARIANT MechContract
 INVARIANT MechDenotation
 INVARIANT MechTypesStable
